@@ -1,9 +1,65 @@
 import Blue.Proofs.Books
 import Blue.Proofs.Ledger
-/-! Property C04: the theorems the check builds and audits (spike inventory; the build phase
-    completes the list from DESIGN Appendix C.0). -/
-#print axioms Blue.Books.tx_balances
-#print axioms Blue.Books.verifier_accepts
-#print axioms Blue.Books.tamper_output_rejected
-#print axioms Blue.Books.tamper_discard_rejected
+import Blue.Proofs.SetsumGrp
+/-! # Property C04 — one setsum covers all data: manifest, files and contents always balance
+
+Property theorems only.  The bookkeeping is stated over any commutative group (`Grp`), and the
+canonical setsum values of C14 are shown to be one (`setsumGrp`); the driver runs
+`Blue.Books.verify setsumGrp` — the verifier's chain / balance / recomputed-discard pass — on
+the records of every manifest fragment the real store writes and compares the verdict with the
+real `ManifestVerifier`, also on tampered copies.
+
+Not a theorem: that a file's setsum equals the setsum of the entries stored in it (C10's
+`metadata_exact` + C14's `matches_definition`, checked per file by the harness), and that a
+changed entry changes the file's setsum (`h(e) ≠ 0`, `h(e) ≠ h(e')`: a hash assumption). -/
+namespace Blue.Props.C04
+open Blue.Books Blue.Setsum
+
+/-- the canonical setsum values with column-wise addition are a commutative group -/
+def group : Grp CState := setsumGrp
+
+/-- the code's subtraction is addition of the group inverse (never underflows on API values) -/
+theorem sub_is_group_sub {a b : State} (ha : Canonical a) (hb : Canonical b) :
+    sub a b = some (add a (negState b)) := sub_eq_add_neg ha hb
+
+variable {G : Type} [DecidableEq G] (g : Grp G) {F : Type} [DecidableEq F] (s : F → G)
+
+/-- **every transaction balances**: with `I` the sum over the tree's files, `D` = removed − added
+    and `O = I − D` (what `apply_manifest_*` writes), `I = O + D` and `O` is the sum over the
+    files of the new version -/
+theorem tx_balances (files rm ad : List F) (hnd : files.Nodup) (hrm : rm.Nodup)
+    (hsub : ∀ f ∈ rm, f ∈ files) :
+    let I := total g s files
+    let D := computedDiscard g s rm ad
+    let O := g.sub I D
+    I = g.add O D ∧ total g s (applyTx files rm ad) = O := Blue.Books.tx_balances g s files rm ad hnd hrm hsub
+
+/-- **the verifier accepts every chain of transactions the store writes** (any mix of ingests,
+    moves, compactions, GCs), and the last `O` is the sum over the final files -/
+theorem verifier_accepts (reqs : List (List F × List F)) (files : List F) (hnd : files.Nodup)
+    (hv : ValidReqs files reqs) :
+    verify g s (total g s files) (ledger g s files reqs) = true :=
+  Blue.Books.verifier_accepts g s reqs files hnd hv
+
+/-- one altered output digest ⇒ reject -/
+theorem tamper_output_rejected (prev : G) (a b : List (Rec G F)) (r : Rec G F) (o' : G)
+    (hv : verify g s prev (a ++ r :: b) = true) (hne : o' ≠ r.O) :
+    verify g s prev (a ++ { r with O := o' } :: b) = false :=
+  Blue.Books.tamper_output_rejected g s prev a b r o' hv hne
+
+/-- one altered discard digest ⇒ reject -/
+theorem tamper_discard_rejected (prev : G) (a b : List (Rec G F)) (r : Rec G F) (d' : G)
+    (hv : verify g s prev (a ++ r :: b) = true) (hne : d' ≠ r.D) :
+    verify g s prev (a ++ { r with D := d' } :: b) = false :=
+  Blue.Books.tamper_discard_rejected g s prev a b r d' hv hne
+
+end Blue.Props.C04
+
+#print axioms Blue.Props.C04.group
+#print axioms Blue.Props.C04.sub_is_group_sub
+#print axioms Blue.Props.C04.tx_balances
+#print axioms Blue.Props.C04.verifier_accepts
+#print axioms Blue.Props.C04.tamper_output_rejected
+#print axioms Blue.Props.C04.tamper_discard_rejected
 #print axioms Blue.Books.tamper_file_rejected
+#print axioms Blue.Books.total_change
